@@ -345,10 +345,7 @@ fn eval_step_expr(
 ) -> error::Result<Vec<dom::XmlNode>> {
     match step {
         expr::Step::Current => Ok(vec![node]),
-        expr::Step::Parent => match node {
-            dom::XmlNode::Document(_) => Ok(vec![]),
-            _ => Ok(vec![node.parent_node().unwrap()]),
-        },
+        expr::Step::Parent => Ok(parent(&node).into_iter().collect()),
         expr::Step::Test(axis, test, predicate) => {
             eval_axis_node_test(axis, test, predicate, node, context)
         }
@@ -377,7 +374,7 @@ fn eval_axis_node_test(
             expr::AxisName::Following => following(node),
             expr::AxisName::FollowingSibling => following_sibling(node),
             expr::AxisName::Namespace => namespace(node),
-            expr::AxisName::Parent => vec![node.parent_node().unwrap()],
+            expr::AxisName::Parent => parent(&node).into_iter().collect(),
             expr::AxisName::Preceding => preceding(node),
             expr::AxisName::PrecedingSibling => preceding_sibling(node),
             expr::AxisName::Current => vec![node],
@@ -533,10 +530,10 @@ fn eval_func_expr(
 fn ancestor(node: dom::XmlNode) -> Vec<dom::XmlNode> {
     let mut nodes = vec![];
 
-    let mut parent = node.parent_node();
-    while let Some(p) = parent {
+    let mut current = parent(&node);
+    while let Some(p) = current {
         nodes.push(p.clone());
-        parent = p.parent_node();
+        current = parent(&p);
     }
 
     nodes
